@@ -250,6 +250,15 @@ def run_case(case):
     nt = monitor(spec, res, acc, complete=(res.status == "ok")) if res.trace.steps else False
     if stepping and res.status == "ok":
         acc.cov["stepped_runs"] += 1
+    if res.status in ("error", "abort") and res.trace.phase == "run" and res.trace.steps:
+        # a run that was stepping and then raised (or never stopped) did not terminate at the last
+        # harvest or on the day before the end date
+        tname, msg, site, _ = res.exc
+        last = res.trace.steps[-1]
+        acc.add("termination", f"after step {last['t']} ({last['date'].date()}) the run "
+                f"{'did not stop (watchdog)' if res.status == 'abort' else 'raised'} {tname} in {site[0]}.{site[1]}: {msg[:100]}",
+                dict(t=last["t"], exception=tname, site=list(site)), dict(exception=tname, crop_has_no_YldWC=acc.spec_feats.get("crop_has_no_YldWC")),
+                site=f"{site[0]}.{site[1]}")
     out = base.finish(spec, res, acc, nt, instruments=("step",),
                       sample_extra={"stepping": getattr(res.trace, "parts", None) and res.trace.parts[:8],
                                     "window_class": case.get("cls")})
